@@ -17,26 +17,26 @@ Proof.
         if skip then (W, o)
         else (mkworld (bank W) (supply W) (wexists W) (deleg W) (unbond W) (wdaddr W) (pending W) (broken W) (grants W)
                       (<[(a, k) := v]> (store W)),
-              mkobj (obal o) (dstor o) (ostor o) (<[k := v]> (tstor o)))) l (Wx, ox))) = bank W /\
+              mkobj (obal o) (dstor o) (ostor o) (<[k := v]> (tstor o)) (osui o))) l (Wx, ox))) = bank W /\
     supply (fst (fold_left
      (fun '(W, o) '(k, v) =>
         let skip := match tstor o !! k with Some t => t =? v | None => v =? zg (ostor o) k end in
         if skip then (W, o)
         else (mkworld (bank W) (supply W) (wexists W) (deleg W) (unbond W) (wdaddr W) (pending W) (broken W) (grants W)
                       (<[(a, k) := v]> (store W)),
-              mkobj (obal o) (dstor o) (ostor o) (<[k := v]> (tstor o)))) l (Wx, ox))) = supply W).
+              mkobj (obal o) (dstor o) (ostor o) (<[k := v]> (tstor o)) (osui o))) l (Wx, ox))) = supply W).
   { by apply H. }
   induction l as [|[k v] l IH]; intros Wx ox Hb Hs; cbn [fold_left fst]; [done|].
   destruct (match tstor ox !! k with Some t => t =? v | None => v =? zg (ostor ox) k end); apply IH; done.
 Qed.
 
 Theorem commit_one_exact W D a o W' D' :
-  objs D !! a = Some o -> commit_one W D a = (W', D', true) ->
+  objs D !! a = Some o -> osui o = false -> commit_one W D a = (W', D', true) ->
   zg (bank W') a = obal o /\
   supply W' = supply W + (obal o - zg (bank W) a) /\
   (forall b, b <> a -> zg (bank W') b = zg (bank W) b).
 Proof.
-  intros Ho. unfold commit_one. rewrite Ho. cbn [bank supply wexists].
+  intros Ho Hal. unfold commit_one. rewrite Ho, Hal. cbn [bank supply wexists].
   destruct (obal o <? 0); [inversion 1|].
   destruct ((0 <? obal o - zg (bank W) a) && blocked a); [inversion 1|].
   set (W1 := mkworld _ _ _ _ _ _ _ _ _ _).
@@ -45,6 +45,25 @@ Proof.
   intros H. inversion H; subst W' D'. rewrite Hs. unfold zg at 1. rewrite Hb. unfold W1; cbn.
   rewrite lookup_insert. cbn. split; [done|]. split; [done|].
   intros b Hne. unfold zg. by rewrite lookup_insert_ne.
+Qed.
+
+(** a self-destructed contract is deleted: exactly its bank balance is burned (nothing when its
+    account is gone already), nobody else's balance moves, the cache is left as it is *)
+Theorem commit_one_suicided_exact W D a o W' D' ok :
+  objs D !! a = Some o -> osui o = true -> commit_one W D a = (W', D', ok) ->
+  ok = true /\ D' = D /\ a ∉ wexists W' /\
+  (a ∈ wexists W -> zg (bank W') a = 0 /\ supply W' = supply W - zg (bank W) a) /\
+  (a ∉ wexists W -> W' = W) /\
+  (forall b, b <> a -> zg (bank W') b = zg (bank W) b).
+Proof.
+  intros Ho Hs. unfold commit_one, delete_account. rewrite Ho, Hs.
+  destruct (decide (a ∈ wexists W)) as [Hin|Hn].
+  - rewrite bool_decide_eq_true_2 by done. intros H; inversion H; subst W' D' ok. cbn.
+    split; [done|]. split; [done|]. split; [set_solver|]. split.
+    + intros _. unfold zg. by rewrite lookup_insert.
+    + split; [done|]. intros b Hne. unfold zg. by rewrite lookup_insert_ne.
+  - rewrite bool_decide_eq_false_2 by done. intros H; inversion H; subst W' D' ok.
+    split; [done|]. split; [done|]. split; [done|]. split; [done|]. split; done.
 Qed.
 
 (** * The Cosmos-side effect of an owner call is the native message's effect *)
@@ -144,4 +163,40 @@ Example ok_contract_transfer_conserves :
   model_obs w_ok_contract_transfer_own_funds = impl_obs w_ok_contract_transfer_own_funds /\
   b_ok (model_obs w_ok_contract_transfer_own_funds) = true /\ b_supply (model_obs w_ok_contract_transfer_own_funds) = 0 /\
   nth 13 (b_bal (model_obs w_ok_contract_transfer_own_funds)) 0 = 430.
+Proof. vm_compute. auto. Qed.
+
+(** * SELFDESTRUCT *)
+(** the whole balance goes to the beneficiary, the contract is deleted, the supply is unchanged *)
+Example sd_to_other_conserves :
+  model_obs w_sd_to_other = impl_obs w_sd_to_other /\ b_ok (model_obs w_sd_to_other) = true /\
+  b_supply (model_obs w_sd_to_other) = 0 /\ b_alive (model_obs w_sd_to_other) = [false; true; true] /\
+  nth 1 (b_bal (model_obs w_sd_to_other)) 0 = 5025.
+Proof. vm_compute. auto. Qed.
+(** the sanctioned burn: a contract that self-destructs to itself destroys its balance (4000 + the 25 it was sent) *)
+Example sd_to_self_burns :
+  model_obs w_sd_to_self = impl_obs w_sd_to_self /\ b_ok (model_obs w_sd_to_self) = true /\
+  b_supply (model_obs w_sd_to_self) = -4025.
+Proof. vm_compute. auto. Qed.
+(** value sent to a contract after it self-destructed in the same transaction is destroyed with it *)
+Example sd_value_after_death_burns :
+  model_obs w_sd_value_after_death = impl_obs w_sd_value_after_death /\ b_ok (model_obs w_sd_value_after_death) = true /\
+  b_supply (model_obs w_sd_value_after_death) = -5.
+Proof. vm_compute. auto. Qed.
+(** self-destruct, then a staking call by the dead contract: the precompile's flush has deleted the
+    account and burned its bank balance, the delegation fails for lack of funds; nothing is minted *)
+Example sd_then_delegate_conserves :
+  model_obs w_sd_then_delegate = impl_obs w_sd_then_delegate /\ b_ok (model_obs w_sd_then_delegate) = true /\
+  b_supply (model_obs w_sd_then_delegate) = 0 /\ nth 2 (b_deleg (model_obs w_sd_then_delegate)) 0 = 0.
+Proof. vm_compute. auto. Qed.
+(** a second self-destruct inside a frame that reverts is undone: flag and balance are restored
+    (the 1000 the dead contract had received are still there when it is deleted: burned, not paid out) *)
+Example sd_again_in_reverted_frame_undone :
+  model_obs w_sd_again_in_reverted_frame = impl_obs w_sd_again_in_reverted_frame /\
+  b_ok (model_obs w_sd_again_in_reverted_frame) = true /\
+  b_supply (model_obs w_sd_again_in_reverted_frame) = -1000 /\ nth 1 (b_bal (model_obs w_sd_again_in_reverted_frame)) 0 = 5000.
+Proof. vm_compute. auto. Qed.
+(** a self-destruct inside a reverted frame leaves no trace: the contract lives on *)
+Example sd_in_reverted_frame_undone :
+  model_obs w_sd_in_reverted_frame = impl_obs w_sd_in_reverted_frame /\ b_ok (model_obs w_sd_in_reverted_frame) = true /\
+  b_supply (model_obs w_sd_in_reverted_frame) = 0 /\ b_alive (model_obs w_sd_in_reverted_frame) = [true; true; true].
 Proof. vm_compute. auto. Qed.
